@@ -18,6 +18,10 @@ if REPO not in sys.path:
     sys.path.insert(0, REPO)
 os.environ[GUARD] = "1"
 
+import logging  # noqa: E402
+
+logging.getLogger().addHandler(logging.NullHandler())   # netconan logs through the root logger; keep check output clean
+
 import tlc  # noqa: E402
 from tlc import MachineryError  # noqa: E402,F401
 
